@@ -367,6 +367,11 @@ func ReadFromTeletext(r io.Reader, o TeletextOptions) (s *Subtitles, err error) 
 			return
 		}
 
+		// The demuxer may return neither data nor error once the end of the stream has been reached
+		if d == nil {
+			break
+		}
+
 		// We only parse PES data
 		if d.PES == nil {
 			continue
@@ -435,6 +440,12 @@ func teletextPID(dmx *astits.Demuxer, o TeletextOptions) (pid uint16, err error)
 				return
 			}
 			err = fmt.Errorf("astisub: fetching next data failed: %w", err)
+			return
+		}
+
+		// The demuxer may return neither data nor error once the end of the stream has been reached
+		if d == nil {
+			err = ErrNoValidTeletextPID
 			return
 		}
 
